@@ -20,7 +20,8 @@ RULE = (
     "slice), attributes, calls with positional / keyword / starred arguments, subscripts (constant, variable, negative, "
     "slice), unary / binary / boolean / comparison operators, conditionals, tuples, lists, dicts with arbitrary string "
     "keys, nested lambdas; exhaustive to depth 2 over a 6-atom alphabet (thorough) or a seeded sample of it (quick), "
-    "random to depth 4; supplied as source strings, ASTs and capture-free callables; through Select, SelectMany and "
+    "random to depth 4; nested lambdas that use the outer parameter as a bare name in every generically visited "
+    "position, with a module global spelled like that parameter in the callable's module; supplied as source strings, ASTs and capture-free callables; through Select, SelectMany and "
     "Where; non-trivial = at least 4 AST nodes; distinct = distinct (operator, source)"
 )
 EXPLANATION = (
